@@ -14,6 +14,8 @@ import Driver.Fd
 import Driver.Mgr
 import Driver.Life
 import Driver.Srv
+import Driver.Read
+import Driver.Flush
 def main (args : List String) : IO UInt32 := do
   match args with
   | ["lb"] => Driver.Lb.main; return 0
@@ -35,6 +37,8 @@ def main (args : List String) : IO UInt32 := do
   | ["mgr"] => Driver.Mgr.main; return 0
   | ["mgrspec", ops, impl] => Driver.Mgr.specMain ops impl; return 0
   | ["life", trace] => Driver.Life.main trace; return 0
+  | ["read", trace] => Driver.Read.main trace; return 0
+  | ["flush", trace] => Driver.Flush.main trace; return 0
   | ["srv"] => Driver.Srv.main; return 0
   | ["srvspec", ops, impl] => Driver.Srv.specMain ops impl; return 0
   | _ => IO.eprintln "usage: npdriver <mode> ... (see lean/Driver/Main.lean)"; return 2
